@@ -22,7 +22,7 @@ NS = ('xmlns:office="urn:oasis:names:tc:opendocument:xmlns:office:1.0" '
 MIMES = {"odf": "application/vnd.oasis.opendocument.formula", "odt": "application/vnd.oasis.opendocument.text", "ods": "application/vnd.oasis.opendocument.spreadsheet",
          "odp": "application/vnd.oasis.opendocument.presentation", "odg": "application/vnd.oasis.opendocument.graphics"}
 
-ODT_SUPPORTS = {"r.acc", "r.num", "p", "h", "ul", "ul.nested", "tbl", "tbl.nested", "cell.multi", "tbx", "r", "tab", "br", "a",
+ODT_SUPPORTS = {"r.acc", "r.num", "p", "h", "ul", "ul.nested", "tbl", "tbl.nested", "cell.multi", "tbx", "r", "tab", "br", "sp", "a",
                 "ins", "del", "fn", "cm", "header", "footer"}
 
 
@@ -49,6 +49,8 @@ def _inl(inls, c: _C) -> str:
                 out.append(f'<text:span text:style-name="T1">{a_}{b_}</text:span>')
         elif t == "tab":
             out.append("<text:tab/>")
+        elif t == "sp":          # a blank that is the tail of the element before it (or the text before the next one)
+            out.append(" ")
         elif t == "br":
             out.append("<text:line-break/>")
         elif t == "a":
